@@ -397,9 +397,24 @@ class _Raiser(object):
 
     def __call__(self, path, n, total):
         self.log.append((path, n, total))
-        if self.fail == 'reenter':
-            # the callback uses the device itself (another command on the same object, from inside the transfer)
-            r = self.sess.device.shell('reenter', decode=False, read_timeout_s=2.0)
+        if self.fail in ('reenter', 'reenter_stat', 'reenter_pull'):
+            # the callback uses the device itself (another operation on the same object, from inside the transfer)
+            if self.fail == 'reenter':
+                r = self.sess.device.shell('reenter', decode=False, read_timeout_s=2.0)
+            elif self.fail == 'reenter_stat':
+                r = self.sess.device.stat('/re.file', read_timeout_s=2.0)
+            else:
+                sink = io.BytesIO()
+                r = self.sess.device.pull('/re.file', sink, read_timeout_s=2.0)
+                if not hasattr(r, '__await__'):
+                    r = sink.getvalue()
+                else:
+                    inner = r
+
+                    async def pulled():
+                        await inner
+                        return sink.getvalue()
+                    r = pulled()
             if hasattr(r, '__await__'):
                 async def wait():
                     self.reentered.append(await r)
@@ -591,9 +606,10 @@ def run_op(s, op, a, tmp, i, rr):
     cb = op.get('cb')
     log = []
     rr.extra.setdefault('cb', {})[i] = log
-    cbf = _Raiser(log, 'base' if cb == 'raise_base' else ('reenter' if cb == 'reenter' else (cb == 'raise')), sess=s) if cb else None
-    if cb == 'reenter':
+    cbf = _Raiser(log, 'base' if cb == 'raise_base' else (cb if str(cb).startswith('reenter') else (cb == 'raise')), sess=s) if cb else None
+    if str(cb).startswith('reenter'):
         s.dev.shell_scripts[b'shell:reenter'] = [b're-', b'entered']
+        s.dev.fs.add('/re.file', b'nested-content')
         rr.extra.setdefault('reentered', {})[i] = cbf.reentered
     if cbf is not None and s.mode == 'async':
         cbf = _as_async(cbf, op.get('cb_kind', ('def', 'obj', 'forward')[(i + len(a.get('path', a.get('dpath', '')))) % 3]))
@@ -942,6 +958,17 @@ def sync_traces(rr, spec, inert=None, only=None):
         o = rr.outcomes[base + i]
         a = rr.args[i]
         streams = [st for st in rr.dev.every_stream if getattr(st, 'op', None) == i and st.dest.rstrip(b'\0') == b'sync:']
+        if str(op.get('cb')).startswith('reenter'):
+            # a callback that runs other operations opens streams of its own during this one: only the operation's own are its trace
+            first = {'push': 'SEND', 'pull': 'RECV'}.get(api)
+
+            def first_id(st_):
+                recs = getattr(st_.service, 'records', None)
+                return recs[0]['id'] if recs else None
+            own = [st for st in streams if first_id(st) in (first, None)][:1]
+            if api == 'pull':
+                own += [st for st in streams if first_id(st) == 'STAT'][:1]       # the stat() the pull itself issues for its callback
+            streams = [st for st in streams if st in own]
         size = len(a['data']) if api == 'push' else (op.get('size') or 0) if api == 'pull' else 0
         files = a.get('files') if api == 'push' else None
         tr = [dict(ev='call', api=api, size=size, cb=bool(op.get('cb')), nfiles=len(files) if files is not None else 1)]
